@@ -31,7 +31,7 @@ RULE = ("single calls and (every 5th case) HISTORIES: call, extend profile + sat
         "extend_from_profile, Profile and MultiProfile), call twice more on the same objects -- the second call is judged "
         "on the final election with totals of a freshly built satisfaction profile, the first on the election as it was, "
         "the third must repeat the second; every 10th case a near-tie knapsack with 1e9..1e17-sized integer (and mixed "
-        "int/mpq) costs and profits; otherwise elections with 1..8 projects (..10 thorough), 0..5 voters, integer and fractional costs from tie-rich pools "
+        "int/mpq) costs and profits; otherwise elections with 1..8 projects (..10 thorough), 0..5 voters, negative and mixed-sign cardinal/cumulative scores, integer and fractional costs from tie-rich pools "
         "(zeros, equal costs, halves/thirds), budgets on subset sums/boundaries, approval, cardinal, cumulative and "
         "ordinal ballots with every shipped exact-valued additive measure, Profile and MultiProfile, feasible initial "
         "allocations, PRIMAL_DUAL / ILP resolute / ILP irresolute; non-trivial = distinct case with >=2 feasible "
@@ -41,7 +41,8 @@ ASSUMPTIONS = [
     "gmpy2 mpq arithmetic = exact Q; total satisfaction per project is read from the implementation's sat profile",
     "CBC (ILP algorithm and the normalisers of Relative_Cost_Sat / Additive_Cardinal_Relative_Sat): every optimize() "
     "answer, including those inside the integer-cut loop, is re-validated exactly; faults and crashes are discarded",
-    "float-valued additive measures (Additive_Cost_Sqrt_Sat, Additive_Cost_Log_Sat) are outside the property",
+    "float-valued additive measures (Additive_Cost_Sqrt_Sat, Additive_Cost_Log_Sat) are outside the property; "
+    "negative and mixed-sign satisfactions (cardinal / cumulative ballots) are inside it and generated",
     "histories: the final election's totals come from a freshly built satisfaction profile; only ballot-local measures "
     "are used there, so in-place extension and rebuilding must agree (checked, code 92)",
 ]
@@ -209,12 +210,18 @@ def _draw_ballot(rng, kind, n, prev):
         appr = list(appr)
         rng.shuffle(appr)
         return appr
+    # cardinal / cumulative scores may be negative (the property quantifies over them): a third of these ballots
+    # carries negative or mixed-sign scores, so some projects get a negative TOTAL satisfaction
+    neg = rng.random() < 0.35
     if kind == "cardinal":
-        return {str(j): pb.qs(rng.choice([0, 1, 1, 2, 3, Fraction(1, 2), Fraction(2, 3)])) for j in appr}
-    # cumulative: scores sum to at most 1
+        pool = [0, 1, 1, 2, 3, Fraction(1, 2), Fraction(2, 3)]
+        if neg:
+            pool = [-3, -2, -1, -1, Fraction(-1, 2), 0, 1, 2, 3, Fraction(2, 3)]
+        return {str(j): pb.qs(rng.choice(pool)) for j in appr}
+    # cumulative: absolute values sum to at most 1
     if appr:
-        w = [rng.randrange(0, 4) for _ in appr]
-        t = sum(w) or 1
+        w = [rng.randrange(-3, 4) if neg else rng.randrange(0, 4) for _ in appr]
+        t = sum(abs(x) for x in w) or 1
         return {str(j): pb.qs(Fraction(x, t)) for j, x in zip(appr, w)}
     return {}
 
@@ -299,8 +306,9 @@ def gen(rng, i, tier):
             b = costs[0]
     if hard:
         sden = rng.choice([1, 1, 2, 3])
+        lo = rng.choice([0, 0, -4, -9])
         for _ in range(rng.choice([1, 1, 2, 3])):
-            ballots.append({str(j): pb.qs(Fraction(rng.randrange(0, 10), sden)) for j in range(n) if rng.random() < 0.85})
+            ballots.append({str(j): pb.qs(Fraction(rng.randrange(lo, 10), sden)) for j in range(n) if rng.random() < 0.85})
         nv = 0
         if rng.random() < 0.5:
             b = tot * Fraction(rng.randrange(2, 7), 8)
@@ -492,7 +500,9 @@ def nontrivial(case, o):
 def stats(cases, obs):
     d = {"algo_pd": 0, "algo_ilp_resolute": 0, "algo_ilp_irresolute": 0, "fractional_costs": 0,
          "fractional_scores": 0, "zero_cost_project": 0, "zero_cost_with_supporters": 0,
-         "zero_cost_without_supporters": 0, "zero_profit_project": 0, "nonempty_init": 0, "multiprofile": 0,
+         "zero_cost_without_supporters": 0, "zero_profit_project": 0, "negative_total_satisfaction": 0,
+         "negative_total_positive_cost_undecided": 0, "negative_total_zero_cost_undecided": 0,
+         "negative_total_in_initial_allocation": 0, "all_undecided_totals_negative": 0, "nonempty_init": 0, "multiprofile": 0,
          "tied_optima>=2": 0, "greedy_prefix_not_optimal": 0, "budget_is_subset_sum": 0,
          "equal_efficiency_pair": 0, "pd_nothing_to_decide": 0, "history": 0, "history_multiprofile": 0,
          "history_first_answer_no_longer_optimal": 0, "history_first_call_on_empty_profile": 0, "near_tie_large": 0,
@@ -510,6 +520,11 @@ def stats(cases, obs):
         d["zero_cost_with_supporters"] += any(cs[j] == 0 and sc[j] > 0 for j in und)
         d["zero_cost_without_supporters"] += any(cs[j] == 0 and sc[j] == 0 for j in und)
         d["zero_profit_project"] += any(cs[j] > 0 and sc[j] == 0 for j in und)
+        d["negative_total_satisfaction"] += any(x < 0 for x in sc)
+        d["negative_total_positive_cost_undecided"] += any(cs[j] > 0 and sc[j] < 0 for j in und)
+        d["negative_total_zero_cost_undecided"] += any(cs[j] == 0 and sc[j] < 0 for j in und)
+        d["negative_total_in_initial_allocation"] += any(sc[j] < 0 for j in c["init"])
+        d["all_undecided_totals_negative"] += bool(und) and all(sc[j] < 0 for j in und)
         d["pd_nothing_to_decide"] += c["algo"] == 0 and not any(cs[j] > 0 for j in und)
         d["nonempty_init"] += bool(c["init"])
         d["multiprofile"] += bool(c["multi"])
